@@ -73,7 +73,7 @@ func parsePowers(s string) []int64 {
 
 // the request every tally case carries: add_peer of the new key K, bound to
 // account X with nonce 0 (X's account nonce is 1 when the precompile runs).
-func newTallySet(name string) *tallySet {
+func newTallySet(name string, quick bool) *tallySet {
 	ts := &tallySet{Name: name, Powers: parsePowers(name), ByName: map[string]*entryKind{}}
 	X := acct("X")
 	ts.From = X.addr.Bytes()
@@ -96,7 +96,9 @@ func newTallySet(name string) *tallySet {
 	s0 := nodeSign("V0", ts.Msg)
 	add(entryKind{Name: "W0", Pub: v0.pub, Sig: nodeSign("V0", other), Signer: -1, WellFormed: true, Claims: 0, WrongMsg: true})
 	add(entryKind{Name: "N", Pub: nk("N").pub, Sig: nodeSign("N", ts.Msg), Signer: -1, WellFormed: true, Claims: -1, Foreign: true})
-	add(entryKind{Name: "X01", Pub: v0.pub, Sig: nodeSign("V1", ts.Msg), Signer: -1, WellFormed: true, Claims: 0})
+	if !quick {
+		add(entryKind{Name: "X01", Pub: v0.pub, Sig: nodeSign("V1", ts.Msg), Signer: -1, WellFormed: true, Claims: 0})
+	}
 	add(entryKind{Name: "PS", Pub: v0.pub[:31], Sig: s0, Signer: -1, Claims: -1})                           // pubkey one byte short: not V0's key
 	add(entryKind{Name: "PL", Pub: append(append([]byte{}, v0.pub...), 0), Sig: s0, Signer: 0, Claims: -1}) // pubkey one byte long
 	add(entryKind{Name: "SS", Pub: v0.pub, Sig: s0[:32], Signer: -1, Claims: 0})                            // half a signature
